@@ -260,8 +260,22 @@ func InspectNoLit(n ast.Node, f func(ast.Node) bool) {
 	})
 }
 
-// IsRecvFrom reports whether e is `<-ch` with ch denoting obj.
+// RecvHelper, when set, decides whether a call that is handed the channel obj stands for exactly one
+// receive from it (a helper that performs one receive on every path and returns what it received or
+// what to keep).
+var RecvHelper func(info *types.Info, call *ast.CallExpr, argIdx int) bool
+
+// IsRecvFrom reports whether e is `<-ch` with ch denoting obj (or a call of a one-receive helper that
+// is given ch).
 func IsRecvFrom(info *types.Info, e ast.Node, obj types.Object) bool {
+	if call, isCall := e.(*ast.CallExpr); isCall && RecvHelper != nil {
+		for i, a := range call.Args {
+			if id, ok := ast.Unparen(a).(*ast.Ident); ok && info.Uses[id] == obj && RecvHelper(info, call, i) {
+				return true
+			}
+		}
+		return false
+	}
 	u, ok := e.(*ast.UnaryExpr)
 	if !ok || u.Op != token.ARROW {
 		return false
